@@ -211,6 +211,22 @@ def show(n):
     return "<" + k + ">"
 
 
+class Shown(str):
+    """text of a node that remembers the node (so that comparisons can fall back to canonical forms)"""
+    def __new__(cls, s, node):
+        o = str.__new__(cls, s)
+        o.node = node
+        return o
+
+
+_show_raw = show
+
+
+def show(n):  # noqa: F811
+    s = _show_raw(n)
+    return Shown(s, n) if is_node(n) else s
+
+
 # ---- items ----------------------------------------------------------------------
 
 class Fn:
@@ -336,6 +352,59 @@ class Ast:
         if len(ex) == 1:
             return ex[0]
         raise KeyError("ambiguous fn %s in %s: %s" % (name, file_suffix, m))
+
+    def enclosing_fn(self, node):
+        """the Fn object whose signature/body contains `node` (identity), or None"""
+        if getattr(self, "_encl", None) is None:
+            self._encl = {}
+            for f in self.fns:
+                for n in walk(f.node):
+                    self._encl.setdefault(id(n), f)
+        return self._encl.get(id(node))
+
+    def helpers_of(self, file):
+        """private fns of `file` that have exactly one call site in it: name -> fn node (they are treated as part of
+        their caller when code is compared in canonical form)"""
+        if getattr(self, "_helpers", None) is None:
+            self._helpers = {}
+        if file in self._helpers:
+            return self._helpers[file]
+        fns = [f for f in self.fns if f.file == file and not f.is_test()]
+        names = {}
+        for f in fns:
+            names.setdefault(f.name, []).append(f)
+        uses = {}
+        for f in fns:
+            if f.body is None:
+                continue
+            for n in walk(f.body):
+                nm = None
+                if n["k"] == "Call" and is_node(n["func"]) and n["func"]["k"] == "Path":
+                    nm = n["func"]["path"].split("::")[-1]
+                elif n["k"] == "MethodCall":
+                    nm = n["method"]
+                elif n["k"] == "Path":
+                    nm = n["path"].split("::")[-1]
+                if nm in names and names[nm][0] is not f:
+                    uses[nm] = uses.get(nm, 0) + 1
+        out = {}
+        for nm, fl in names.items():
+            # Call nodes are counted twice (the Call and its func Path)
+            if len(fl) == 1 and fl[0].node.get("vis", "") == "" and fl[0].body is not None and fl[0].impl_trait is None:
+                calls = 0
+                for f in fns:
+                    if f is fl[0] or f.body is None:
+                        continue
+                    for n in walk(f.body):
+                        if n["k"] == "Call" and is_node(n["func"]) and n["func"]["k"] == "Path" and n["func"]["path"].split("::")[-1] == nm:
+                            calls += 1
+                        elif n["k"] == "MethodCall" and n["method"] == nm:
+                            calls += 1
+                refs = uses.get(nm, 0)
+                if calls == 1 and refs <= 2:
+                    out[nm] = fl[0].node
+        self._helpers[file] = out
+        return out
 
     def fns_named(self, file_suffix, name):
         return [f for f in self.fns if f.file.endswith(file_suffix) and f.name == name and not f.is_test()]
